@@ -1,4 +1,5 @@
 #!/bin/sh
+export VERIF_SEEDED=1
 # tools/seedtest.sh <patch.diff> <tier> <CNN> [CNN...]
 # applies a seeded change to /repo, runs the given checks, always reverts.
 P=$1; T=$2; shift 2
